@@ -821,6 +821,9 @@ class _ArraySizeInferInstance(DefaultVisitor):
 
     def _visit_return(self, stmt: ReturnStmt, ctx: None):
         ret_size = self._visit_expr(stmt.expr, ctx)
+        # whatever follows a `return` runs only on executions that did not
+        # take it, so it is conditional from here on
+        self._cond_depth += 1
         if not isinstance(ret_size, ListSize):
             return
         # Across multiple returns, unify: concrete iff all paths agree.
